@@ -255,10 +255,25 @@ fn plan16(seed: u64, run: u64, tier: Tier) -> Plan16 {
             0 | 1 => {
                 let shape = mapgen::gen_shape(&mut rng);
                 let m = mapgen::gen_orig_map(&mut rng, &text, &shape);
-                text.push_str(&format!(
-                    "\n//# sourceMappingURL=data:application/json;base64,{}\n",
-                    b64_encode(m.to_json().as_bytes())
-                ));
+                let mj = m.to_json();
+                // a twin: the same program with an inline map of the same length that differs in one
+                // character in the middle of its mappings (a rebuild that shifted one column)
+                if rng.chance(1, 2) {
+                    if let (Some(a), Some(b)) = (mj.find("\"mappings\":\""), mj.rfind('"')) {
+                        let lo = a + 12;
+                        if b > lo + 8 {
+                            let mut bytes = mj.clone().into_bytes();
+                            let mid = lo + (b - lo) / 2;
+                            if let Some(pos) = (mid..b).find(|i| matches!(bytes[*i], b'A' | b'C' | b'E' | b'G' | b'I' | b'K' | b'M' | b'O' | b'Q' | b'S')) {
+                                bytes[pos] = if bytes[pos] == b'C' { b'E' } else { b'C' };
+                                let twin_json = String::from_utf8(bytes).unwrap_or_default();
+                                let twin = format!("{}\n//# sourceMappingURL=data:application/json;base64,{}\n", text, b64_encode(twin_json.as_bytes()));
+                                sources.push(Src { kind: format!("{}+inline-twin", kind_s), text: twin });
+                            }
+                        }
+                    }
+                }
+                text.push_str(&format!("\n//# sourceMappingURL=data:application/json;base64,{}\n", b64_encode(mj.as_bytes())));
                 kind_full.push_str("+inline");
             }
             2 | 3 => {
